@@ -323,6 +323,26 @@ def parseNumList? (s : String) : Option (List Num) :=
   let inner := String.ofList ((cs.drop 1).dropLast)
   if inner.isEmpty then some [] else (inner.splitOn ",").mapM Num.parse?
 
+/-- `(py:1,py:2,py:3)` -/
+def parseTriple? (s : String) : Option (Num × Num × Num) :=
+  let cs := s.toList
+  if cs.length < 2 || cs.head? != some '(' || cs.getLast? != some ')' then none else
+  match (String.ofList ((cs.drop 1).dropLast)).splitOn "," with
+  | [a, b, c] => do
+    let x ← Num.parse? a
+    let y ← Num.parse? b
+    let z ← Num.parse? c
+    some (x, y, z)
+  | _ => none
+
+/-- `[None;(py:1,py:2,py:3)]` (elements separated by `;`, no blanks) -/
+def parseOptTripleList? (s : String) : Option (List (Option (Num × Num × Num))) :=
+  let cs := s.toList
+  if cs.length < 2 || cs.head? != some '[' || cs.getLast? != some ']' then none else
+  let inner := String.ofList ((cs.drop 1).dropLast)
+  if inner.isEmpty then some [] else
+    (inner.splitOn ";").mapM fun e => if e == "None" then some none else (parseTriple? e).map some
+
 def parseBool? (s : String) : Option Bool :=
   if s == "true" then some true else if s == "false" then some false else none
 
